@@ -19,7 +19,7 @@ def run(tier, seed):
     tie = mu_common.tie(res, "muwait_replay", "MuWaitModel", [("muwait_mix", {"VRT_MODE": 0, "VRT_CV": 0}, 200, 2000),
                                                               ("muwait_mix", {"VRT_MODE": 1, "VRT_CV": 0}, 200, 2000)], tier, seed)
     specs = [("cv_mix", {"VRT_MODE": 0}, 2000, 40000), ("cv_mix", {"VRT_MODE": 4}, 1500, 30000), ("muwait_mix", {"VRT_MODE": 0}, 2000, 40000),
-             ("muwait_mix", {"VRT_MODE": 1}, 1000, 20000), ("cancel_mix", {}, 3000, 60000)]
+             ("muwait_mix", {"VRT_MODE": 1}, 1000, 20000), ("muwait_mix", {"VRT_MODE": 0, "VRT_FINE": 600}, 1500, 30000), ("cancel_mix", {}, 3000, 60000)]
     cov = scen_common.run_scenarios(res, specs, tier, seed, {"C05", "C01"} | scen_common.LIVENESS | scen_common.CRASHES)
     cov["rule"] = ("every return of nsync_cv_wait_with_deadline / nsync_mu_wait_with_deadline is checked: shadow lock mode, virtual clock vs "
                    "deadline for ETIMEDOUT, note state for ECANCELED, condition value for mu_wait; cancel_mix: notes fresh / already notified / "
